@@ -47,6 +47,45 @@ def rules(a):
             )
 
 
+_ANNOTATION_NAMES = {
+    "bool": bool,
+    "int": int,
+    "str": str,
+    "list": list,
+    "range": range,
+    "Party": Party,
+    "Input": Input,
+    "Output": Output,
+    "Integer": Integer,
+    "PublicInteger": PublicInteger,
+    "SecretInteger": SecretInteger,
+    "Boolean": Boolean,
+    "PublicBoolean": PublicBoolean,
+    "SecretBoolean": SecretBoolean,
+}
+
+
+def _annotation_type(a):
+    """
+    Resolve a type annotation :obj:`ast` node to the type it denotes without
+    evaluating it (the audited program must never be executed). Annotations
+    that are missing or outside the supported subset yield a type error.
+    """
+    if isinstance(a, ast.Name) and a.id in _ANNOTATION_NAMES:
+        return _ANNOTATION_NAMES[a.id]
+
+    if (
+        isinstance(a, ast.Subscript)
+        and isinstance(a.value, ast.Name)
+        and a.value.id == "list"
+    ):
+        t = _annotation_type(a.slice)
+        if not isinstance(t, TypeError):
+            return list[t]
+
+    return TypeErrorRoot("invalid type annotation")
+
+
 def _types_base(t):
     """
     Return a boolean value indicating whether the supplied type is a base
@@ -71,6 +110,9 @@ def _types_list_monomorphic(t):
     monomorphic list type (*i.e.*, a list type wherein the types of the items
     are fully specified).
     """
+    if isinstance(t, TypeError):
+        return False
+
     if t.__name__ == "list" and hasattr(t, "__args__") and len(t.__args__) == 1:
         return _types_list_monomorphic(t.__args__[0])
 
@@ -214,7 +256,7 @@ def types(a, env=None, func=False):
                 rules_no_restriction(a)
                 rules_no_restriction(a.args)
 
-                t_ret = eval(ast.unparse(a.returns))  # pylint: disable=eval-used
+                t_ret = _annotation_type(a.returns)
                 if _types_monomorphic(t_ret):
                     rules_no_restriction(a.returns)
 
@@ -222,7 +264,7 @@ def types(a, env=None, func=False):
                 ts = []
                 for arg in a.args.args:
                     var = arg.arg
-                    t_var = eval(ast.unparse(arg.annotation))  # pylint: disable=eval-used
+                    t_var = _annotation_type(arg.annotation)
                     if _types_monomorphic(t_var):
                         rules_no_restriction(arg)
                         rules_no_restriction(arg.annotation, recursive=True)
@@ -230,7 +272,8 @@ def types(a, env=None, func=False):
                         ts.append(t_var)
                 for a_ in a.body:
                     env_ = types(a_, env_, func=True)
-                env[a.name] = Callable[ts, t_ret]
+                if not isinstance(t_ret, TypeError):
+                    env[a.name] = Callable[ts, t_ret]
 
         return env
 
@@ -303,8 +346,8 @@ def types(a, env=None, func=False):
             rules_no_restriction(a.target)
             types(a.value, env, func)
             t = audits(a.value, "types")
-            try:
-                t_a = eval(ast.unparse(a.annotation))  # pylint: disable=eval-used
+            t_a = _annotation_type(a.annotation)
+            if not isinstance(t_a, TypeError):
                 rules_no_restriction(a.annotation, recursive=True)
                 if not _types_list_monomorphic(t_a):
                     audits(
@@ -314,8 +357,6 @@ def types(a, env=None, func=False):
                             "assignment of list value requires fully specified type annotation"
                         ),
                     )
-            except:  # pylint: disable=bare-except
-                t_a = TypeErrorRoot("invalid type annotation")
 
             if isinstance(t, TypeError):
                 audits(a, "types", t)
